@@ -3,8 +3,10 @@
 package rules
 
 import (
+	"fmt"
 	"golang.org/x/tools/go/ssa"
 	"sort"
+	"strings"
 
 	"argverif/internal/core"
 )
@@ -24,6 +26,8 @@ type Ctx struct {
 
 	// innerField: for a nested field name of Func ("memo.result") the struct type and field it names
 	innerField map[string][2]string
+
+	roleOfFn map[*ssa.Function]string
 }
 
 // Engine is one rule family.
@@ -60,4 +64,22 @@ func (c *Ctx) role(rule, role string) *coreFunc {
 	}
 	c.R.Func(core.FuncName(f))
 	return f
+}
+
+// oneSite picks the single call site the rule `rule` is stated about. Several candidate sites make the construct
+// undecidable for that rule (a second site — a fast path, a fallback — would escape every obligation that is checked
+// on "the" site), which is reported under the rule itself.
+func (c *Ctx) oneSite(rule, construct, what string, sites []ssa.CallInstruction) ssa.CallInstruction {
+	if len(sites) == 0 {
+		return nil
+	}
+	if len(sites) > 1 {
+		var pos []string
+		for _, s := range sites {
+			pos = append(pos, c.P.InstrPos(s))
+		}
+		c.R.Undecided(rule, construct+"|one-site|"+what, construct, pos[len(pos)-1],
+			fmt.Sprintf("%d sites of %s (%s): the obligations of this rule are stated about a single site", len(sites), what, strings.Join(pos, ", ")))
+	}
+	return sites[len(sites)-1]
 }
